@@ -107,6 +107,17 @@ func runCheck(o checkOpts) int {
 	t1 := time.Now()
 	dischargeSeeded(all, dir, o.timeout, o.workers, o.seed)
 	solveS := time.Since(t1).Seconds()
+	if o.verbose {
+		sl := append([]*Obligation{}, all...)
+		sort.Slice(sl, func(i, j int) bool { return sl[i].Time > sl[j].Time })
+		for i, ob := range sl {
+			if i >= 25 {
+				break
+			}
+			fmt.Fprintf(os.Stderr, "slow %6.1fs %-10s %-22s %s\n", ob.Time, ob.Verdict, ob.Solver, ob.Name)
+		}
+		fmt.Fprintf(os.Stderr, "load %.1fs gen %.1fs solve %.1fs queries %d\n", loadS, genS, solveS, len(all))
+	}
 
 	// aggregate per obligation name
 	agg := map[string]*aggOb{}
